@@ -14,6 +14,7 @@ import pkg_resources
 import toml
 
 from ..containers import DistInfo
+from ..errors import MetadataError
 from ..utils import parse_requirements
 from .dist_info import _fetch_from_wheel, _parse_flat_metadata
 from .patch import patch
@@ -135,9 +136,15 @@ def fetch_from_pyproject(
         )
         return None, []
 
-    result = _parse_from_prepared_metadata(source_file, backend, pyproject)
-    if result is not None:
-        return result, setup_requires
+    try:
+        result = _parse_from_prepared_metadata(source_file, backend, pyproject)
+        if result is not None:
+            return result, setup_requires
 
-    result = _parse_from_wheel(backend)
+        result = _parse_from_wheel(backend)
+    except Exception as ex:  # pylint: disable=broad-except
+        # Whatever the build backend raises is a failure of this project.
+        raise MetadataError(
+            os.path.basename(os.path.normpath(source_file)), None, ex
+        ) from ex
     return result, setup_requires
